@@ -4,5 +4,5 @@ CONSTANTS
   MaxSteps = 0
   Skip <- SkipNone
   NoScan = FALSE
-INVARIANTS Inv_Responds Inv_NoLockLeft
+INVARIANTS Inv_Responds Inv_NoLockLeft Inv_ProcessAlive
 VIEW ViewSeq
